@@ -77,6 +77,70 @@ def _bool_context(test, ids):
     return found == ids
 
 
+_OPERATOR_FUNCS = {'gt': ast.Gt, 'lt': ast.Lt, 'ge': ast.GtE, 'le': ast.LtE, 'eq': ast.Eq, 'ne': ast.NotEq, 'is_': ast.Is, 'is_not': ast.IsNot,
+                   'contains': None}
+_OPERATOR_BIN = {'add': ast.Add, 'sub': ast.Sub, 'mul': ast.Mult, 'truediv': ast.Div, 'floordiv': ast.FloorDiv, 'mod': ast.Mod,
+                 'lshift': ast.LShift, 'rshift': ast.RShift, 'and_': ast.BitAnd, 'or_': ast.BitOr}
+
+
+class ConstFold(ast.NodeTransformer):
+    """`operator.gt(a, b)` -> `a > b` (likewise the other comparison / arithmetic functions of the operator module); comparisons and
+    not / and / or of literal constants -> their value; `if <constant>:` -> the branch that runs.  What remains after a table was
+    unrolled or a named constant was written out."""
+
+    def visit_Call(self, node):
+        self.generic_visit(node)
+        f = node.func
+        if isinstance(f, ast.Attribute) and isinstance(f.value, ast.Name) and f.value.id == 'operator' and len(node.args) == 2 and not node.keywords:
+            if f.attr in _OPERATOR_FUNCS and _OPERATOR_FUNCS[f.attr] is not None:
+                return ast.copy_location(ast.Compare(left=node.args[0], ops=[_OPERATOR_FUNCS[f.attr]()], comparators=[node.args[1]]), node)
+            if f.attr == 'contains':
+                return ast.copy_location(ast.Compare(left=node.args[1], ops=[ast.In()], comparators=[node.args[0]]), node)
+            if f.attr in _OPERATOR_BIN:
+                return ast.copy_location(ast.BinOp(left=node.args[0], op=_OPERATOR_BIN[f.attr](), right=node.args[1]), node)
+        if isinstance(f, ast.Attribute) and isinstance(f.value, ast.Name) and f.value.id == 'operator' and f.attr == 'not_' and len(node.args) == 1:
+            return ast.copy_location(ast.UnaryOp(op=ast.Not(), operand=node.args[0]), node)
+        return node
+
+    def visit_Compare(self, node):
+        self.generic_visit(node)
+        if len(node.ops) == 1 and isinstance(node.left, ast.Constant) and isinstance(node.comparators[0], ast.Constant):
+            a, b = node.left.value, node.comparators[0].value
+            try:
+                op = node.ops[0]
+                v = (a == b) if isinstance(op, ast.Eq) else (a != b) if isinstance(op, ast.NotEq) else (a < b) if isinstance(op, ast.Lt) else \
+                    (a <= b) if isinstance(op, ast.LtE) else (a > b) if isinstance(op, ast.Gt) else (a >= b) if isinstance(op, ast.GtE) else \
+                    (a is b) if isinstance(op, ast.Is) and (a is None or b is None) else (a is not b) if isinstance(op, ast.IsNot) and (a is None or b is None) else None
+            except TypeError:
+                v = None
+            if isinstance(v, bool):
+                return ast.copy_location(ast.Constant(value=v), node)
+        return node
+
+    def _prune(self, body):
+        out = []
+        for st in body:
+            if isinstance(st, ast.If) and isinstance(st.test, ast.Constant) and isinstance(st.test.value, bool):
+                out.extend(st.body if st.test.value else st.orelse)
+            else:
+                out.append(st)
+        return out
+
+    def generic_visit(self, node):
+        super().generic_visit(node)
+        for fld in ('body', 'orelse', 'finalbody'):
+            blk = getattr(node, fld, None)
+            if isinstance(blk, list) and blk and isinstance(blk[0], ast.stmt):
+                new = self._prune(blk)
+                if not new and fld == 'body':
+                    new = [ast.copy_location(ast.Pass(), blk[0])]
+                setattr(node, fld, new)
+        return node
+
+    def visit_Lambda(self, node):
+        return node
+
+
 class JoinNestedIf(ast.NodeTransformer):
     """`if a: if b: X` (neither has an else, the inner `if` is all the outer one contains)  ->  `if a and b: X`"""
 
@@ -818,6 +882,12 @@ def inline_new_constants(tree, rel):
                 isinstance(st.value.value, (int, float, str, bytes)) and count.get(st.targets[0].id) == 1 and \
                 '%s:=%s' % (rel, st.targets[0].id) not in known:
             consts[st.targets[0].id] = st.value
+        elif isinstance(st, ast.Assign) and len(st.targets) == 1 and isinstance(st.targets[0], ast.Tuple) and isinstance(st.value, ast.Tuple) and \
+                len(st.targets[0].elts) == len(st.value.elts):
+            for t_, v_ in zip(st.targets[0].elts, st.value.elts):        # X_AXIS, Y_AXIS = 0, 1
+                if isinstance(t_, ast.Name) and isinstance(v_, ast.Constant) and isinstance(v_.value, (int, float, str, bytes)) and \
+                        count.get(t_.id) == 1 and '%s:=%s' % (rel, t_.id) not in known:
+                    consts[t_.id] = v_
     if not consts:
         return tree
 
@@ -847,6 +917,8 @@ def inline_new_constants(tree, rel):
     for st in tree.body:
         if isinstance(st, (ast.FunctionDef, ast.AsyncFunctionDef, ast.ClassDef)):
             T(set()).visit(st)
+        elif isinstance(st, ast.Assign) and not (len(st.targets) == 1 and isinstance(st.targets[0], ast.Name) and st.targets[0].id in consts):
+            st.value = T(set()).visit(st.value)         # a table / another constant defined with the name
     return tree
 
 
@@ -867,6 +939,7 @@ def simplify_tree(tree):
                         bound_in_fns.add(n.id)
     consts = {k: v for k, v in consts.items() if k.lstrip('.') not in bound_in_fns or k.startswith('.')}
     tree = TableUnroll(consts).visit(tree)
+    tree = ConstFold().visit(tree)
     tree = keywords_to_positional(tree)
     tree = LambdaInline().visit(tree)
     tree = AliasInline().visit(tree)
